@@ -14,6 +14,8 @@ Violations(line) ==
   IF o.panic THEN {"no-panic"}
   ELSE (IF o.corrupt > 0 THEN {"read-saw-incomplete-or-mixed-entry"} ELSE {})
   \cup (IF o.alien > 0 THEN {"read-saw-another-urls-bundle"} ELSE {})
+  \* (Fresh of CRLCache.tla) a read that starts after a store for the url has returned does not answer an older bundle
+  \cup (IF o.stale > 0 THEN {"read-older-than-a-finished-store"} ELSE {})
   \cup (IF o.reads # o.hits + o.misses + o.corrupt + o.alien THEN {"accounting"} ELSE {})
 Init == l = 1
 Next == /\ l <= Len(Trace)
